@@ -173,7 +173,7 @@ Definition apply_entry (e : env) (sv : server) (en : entry) : outcome :=
   end.
 
 (* ---- Marshal followed by Unmarshal into a fresh instance (repaired code: a nickname-less
-   session is not indexed) -------------------------------------------------------------------------------- *)
+   session is not indexed; the whitelisted origins are part of the snapshot) -------------------------------------------------------------------------------- *)
 Definition reload_session (s : session) : session :=
   let created := if (0 <? s_created s)%Z then s_created s else Z.of_N (fst (s_key s)) in
   let lnp := match s_lastNonPing s with None => s_lastActivity s | t => t end in
@@ -192,7 +192,7 @@ Definition reload (sv : server) : server :=
          (let g := sv_config sv in
           Config (g_revision g) (g_expiration g) (g_cooloff g) (g_maxSessions g) (g_maxChannels g) (g_captchaURL g)
                  (g_captchaHMAC g) (g_captchaLogin g) (g_operators g) (g_services g) (g_banned g)
-                 (g_trustedBridges g) ∅).
+                 (g_trustedBridges g) (g_whitelistedOrigins g)).
 
 (* ---- read-only queries of the API ------------------------------------------------------------------------ *)
 Inductive lookup_result := LFound | LNoSuch | LNotYet.
